@@ -73,6 +73,84 @@ Section LinCodeListFacts.
       repeat split; try assumption. rewrite Ev. reflexivity.
   Qed.
 
+  (* ---- an honest opening authenticates exactly t columns, at positions inside the codeword (C13) ---- *)
+  Lemma pop_bytes_length : forall t tape bs rest, pop_bytes t tape = Ok (bs, rest) -> length bs = t.
+  Proof.
+    induction t as [|t IH]; intros tape bs rest H; cbn [pop_bytes] in H.
+    - injection H as <- _. reflexivity.
+    - destruct tape as [|[l|b] tape']; try discriminate.
+      destruct (pop_bytes t tape') as [[bs1 r1]| |] eqn:E; cbn [bind fst snd] in H; try discriminate.
+      injection H as <- _. cbn [length]. f_equal. exact (IH _ _ _ E).
+  Qed.
+  Lemma indices_of_spec n : forall sq idx, indices_of n sq = Ok idx ->
+    length idx = length sq /\ Forall (fun i => (i < n)%N) idx.
+  Proof.
+    unfold indices_of. induction sq as [|b sq IH]; intros idx H; cbn [mapM] in H.
+    - injection H as <-. split; [reflexivity|constructor].
+    - unfold index_of_bytes at 1 in H. destruct (n =? 0)%N eqn:En; cbn [bind] in H; [discriminate|].
+      destruct (mapM (index_of_bytes n) sq) as [r| |]; cbn [bind] in H; try discriminate.
+      injection H as <-. destruct (IH r eq_refl) as [L Hf]. split; [cbn [length]; f_equal; exact L|].
+      constructor; [|exact Hf]. apply N.mod_lt. apply N.eqb_neq in En. exact En.
+  Qed.
+  Theorem lc_open_one_columns wf cm rows pt tape pf rest t :
+    cm_t cm = Ok t -> lc_open_one tensor wf cm rows pt tape = Ok (pf, rest) ->
+    length (lf_paths pf) = t /\ length (lf_cols pf) = t /\
+    Forall (fun p => (lpt_index p < cm_n_ext cm)%nat /\ lpt_intact p = true) (lf_paths pf).
+  Proof.
+    intros Ht H. unfold lc_open_one in H. rewrite Ht in H.
+    destruct (tensor pt (cm_n_cols cm) (cm_n_rows cm)) as [[a b]| |]; cbn [bind fst snd] in H; try discriminate.
+    match type of H with context [bind ?X _] => destruct X as [rr| |] end; cbn [bind] in H; try discriminate.
+    match type of H with context [bind ?X _] => destruct X as [u| |] end; cbn [bind] in H; try discriminate.
+    destruct (row_mul rows (cm_n_cols cm) b) as [bv| |]; cbn [bind] in H; try discriminate.
+    unfold pop_indices in H.
+    destruct (pop_bytes t (snd rr)) as [[bs r1]| |] eqn:Ep; cbn [bind fst snd] in H; try discriminate.
+    destruct (indices_of (N.of_nat (cm_n_ext cm)) bs) as [idx| |] eqn:Ei; cbn [bind fst snd] in H; try discriminate.
+    match type of H with context [bind ?X _] => destruct X as [pf0| |] eqn:Eo end; cbn [bind] in H; try discriminate.
+    injection H as <- _.
+    destruct (indices_of_spec _ _ _ Ei) as [Li Hi]. pose proof (pop_bytes_length _ _ _ _ Ep) as Lb.
+    unfold l_open_e in Eo.
+    match type of Eo with context [bind ?X _] => destruct X as [wfv| |] end; cbn [bind] in Eo; try discriminate.
+    match type of Eo with context [bind ?X _] => destruct X as [v| |] end; cbn [bind] in Eo; try discriminate.
+    destruct (existsb _ (map N.to_nat idx)) eqn:Ex; [discriminate|]. injection Eo as <-. cbn [lf_paths lf_cols].
+    rewrite !map_length. repeat split; try lia.
+    apply Forall_forall. intros p Hin. apply in_map_iff in Hin. destruct Hin as (i & <- & Hin). cbn [lpt_index lpt_intact].
+    split; [|reflexivity].
+    apply in_map_iff in Hin. destruct Hin as (k & <- & Hk).
+    rewrite Forall_forall in Hi. specialize (Hi k Hk). lia.
+  Qed.
+
+  (* a verdict (accept or reject) is only given on a proof that carries at least t columns and t paths *)
+  Lemma l_check_e_shape enc wf n_cols cext a b value pf r idx res :
+    l_check_e enc wf n_cols cext a b value pf r idx = Ok res ->
+    (length idx <= length (lf_cols pf))%nat /\ (length idx <= length (lf_paths pf))%nat.
+  Proof.
+    unfold l_check_e. intros H.
+    destruct (negb (length (lf_v pf) =? n_cols)%nat); [discriminate|].
+    match type of H with context [bind ?X _] => destruct X as [out| |] end; cbn [bind] in H; try discriminate.
+    destruct (path_loop cext (lf_cols pf) idx (lf_paths pf)) as [[]| |] eqn:Ep; cbn [bind] in H; try discriminate.
+    match type of H with context [ip_loop ?V _ _] => destruct (ip_loop V (lf_cols pf) idx) as [[]| |] eqn:Ei end; cbn [bind] in H; try discriminate.
+    pose proof (ip_loop_ok_len _ _ _ Ei) as L1. split; [exact L1|]. exact (path_loop_ok_len _ _ _ _ Ep L1).
+  Qed.
+  Theorem lc_check_one_shape wf cm pt value pf tape res rest t :
+    cm_t cm = Ok t -> lc_check_one tensor wf cm pt value pf tape = Ok (res, rest) ->
+    (t <= length (lf_cols pf))%nat /\ (t <= length (lf_paths pf))%nat.
+  Proof.
+    intros Ht H. unfold lc_check_one in H. rewrite Ht in H. cbn [bind] in H.
+    destruct (negb (length (lf_v pf) =? cm_n_cols cm)%nat); [discriminate|].
+    match type of H with context [bind ?X _] => destruct X as [rr| |] end; cbn [bind] in H; try discriminate.
+    unfold pop_indices in H.
+    destruct (pop_bytes t (snd rr)) as [[bs r1]| |] eqn:Ep; cbn [bind fst snd] in H; try discriminate.
+    destruct (indices_of (N.of_nat (cm_n_ext cm)) bs) as [idx| |] eqn:Ei; cbn [bind fst snd] in H; try discriminate.
+    match type of H with context [bind ?X _] => destruct X as [bb| |] eqn:Ec end; cbn [bind] in H; try discriminate.
+    destruct (indices_of_spec _ _ _ Ei) as [Li _]. pose proof (pop_bytes_length _ _ _ _ Ep) as Lb.
+    unfold l_check_item in Ec. cbn [li_pf li_n_cols li_cext li_idx li_ab li_enc li_value li_r] in Ec.
+    destruct (negb (length (lf_v pf) =? cm_n_cols cm)%nat); [discriminate|].
+    match type of Ec with context [bind ?X _] => destruct X as [out| |] end; cbn [bind] in Ec; try discriminate.
+    destruct (path_loop (cm_cext cm) (lf_cols pf) (map N.to_nat idx) (lf_paths pf)) as [[]| |]; cbn [bind] in Ec; try discriminate.
+    destruct (tensor pt (cm_n_cols cm) (cm_n_rows cm)) as [[a b]| |]; cbn [bind fst snd] in Ec; try discriminate.
+    destruct (l_check_e_shape _ _ _ _ _ _ _ _ _ _ _ Ec) as [L1 L2]. rewrite map_length in L1, L2. lia.
+  Qed.
+
   (* ---- the proof determines the values (C02): an accepted value is <v, a> for the vector v the proof carries ---- *)
   Lemma l_check_e_value enc wf n_cols cext a b value pf r idx :
     l_check_e enc wf n_cols cext a b value pf r idx = Ok true -> value = ip (lf_v pf) a.
